@@ -1,0 +1,147 @@
+//! Verification hooks. Compiled only with `--cfg o2o_verif`; add-only, no behaviour change.
+//! Records, per derive run, the raw instruction names as written and the parsed-and-merged
+//! abstract state at the linearisation point "parsed, not yet validated".
+use std::cell::RefCell;
+
+use proc_macro2::{Delimiter, Spacing, TokenStream, TokenTree};
+use quote::ToTokens;
+
+#[cfg(feature = "syn2")]
+use syn2 as syn;
+
+use crate::ast::{DataType, Field, Struct, SynDataTypeMember, Variant};
+use crate::attr::{ChildAttr, DataTypeAttrs, GhostData, GhostIdent, GhostsAttr, Kind, MemberAttrs, ParentAttr, TraitAttr, TypeHint, TypePath};
+
+thread_local! { static EVENTS: RefCell<Vec<String>> = RefCell::new(Vec::new()); }
+
+/// Drains the events recorded on this thread.
+pub fn take_events() -> Vec<String> { EVENTS.with(|e| std::mem::take(&mut *e.borrow_mut())) }
+fn push(s: String) { EVENTS.with(|e| e.borrow_mut().push(s)) }
+
+const KINDS: [(Kind, &str); 6] = [(Kind::OwnedInto, "OI"), (Kind::RefInto, "RI"), (Kind::FromOwned, "FO"), (Kind::FromRef, "FR"), (Kind::OwnedIntoExisting, "OIE"), (Kind::RefIntoExisting, "RIE")];
+
+fn js(s: &str) -> String {
+    let mut o = String::with_capacity(s.len() + 2);
+    o.push('"');
+    for c in s.chars() {
+        match c {
+            '"' => o.push_str("\\\""), '\\' => o.push_str("\\\\"), '\n' => o.push_str("\\n"), '\t' => o.push_str("\\t"), '\r' => o.push_str("\\r"),
+            c if (c as u32) < 0x20 => o.push_str(&format!("\\u{:04x}", c as u32)),
+            c => o.push(c),
+        }
+    }
+    o.push('"');
+    o
+}
+fn arr(v: Vec<String>) -> String { format!("[{}]", v.join(",")) }
+fn opt_s(o: Option<String>) -> String { o.map(|x| js(&x)).unwrap_or_else(|| js("-")) }
+
+fn flat(ts: &TokenStream, out: &mut Vec<String>) {
+    for tt in ts.clone() {
+        match tt {
+            TokenTree::Group(g) => {
+                let (o, c) = match g.delimiter() { Delimiter::Parenthesis => ("(", ")"), Delimiter::Brace => ("{", "}"), Delimiter::Bracket => ("[", "]"), Delimiter::None => ("", "") };
+                if !o.is_empty() { out.push(format!("[\"g\",{},\"a\"]", js(o))); }
+                flat(&g.stream(), out);
+                if !c.is_empty() { out.push(format!("[\"g\",{},\"a\"]", js(c))); }
+            }
+            TokenTree::Ident(i) => out.push(format!("[\"i\",{},\"a\"]", js(&i.to_string()))),
+            TokenTree::Punct(p) => out.push(format!("[\"p\",{},{}]", js(&p.as_char().to_string()), if p.spacing() == Spacing::Joint { "\"j\"" } else { "\"a\"" })),
+            TokenTree::Literal(l) => out.push(format!("[\"l\",{},\"a\"]", js(&l.to_string()))),
+        }
+    }
+}
+fn toks(ts: &TokenStream) -> String { let mut v = vec![]; flat(ts, &mut v); arr(v) }
+fn opt_toks(ts: &Option<TokenStream>) -> String { ts.as_ref().map(toks).unwrap_or_else(|| js("-")) }
+fn cp(t: &Option<TypePath>) -> String { opt_s(t.as_ref().map(|x| x.path_str.clone())) }
+fn hint(h: TypeHint) -> &'static str { match h { TypeHint::Unit => "\"unit\"", TypeHint::Struct => "\"struct\"", TypeHint::Tuple => "\"tuple\"", TypeHint::Unspecified => "\"-\"" } }
+fn appl(a: &[bool; 6]) -> String { arr(KINDS.iter().filter(|(k, _)| a[k]).map(|(_, n)| js(n)).collect()) }
+
+fn trait_attr(t: &TraitAttr) -> String {
+    let c = &t.core;
+    let vars = c.init_data.as_ref().map(|v| arr(v.iter().map(|x| format!("{{\"ident\":{},\"e\":{}}}", js(&x.ident.to_string()), toks(&x.action))).collect())).unwrap_or_else(|| "[]".into());
+    format!("{{\"kinds\":{},\"fallible\":{},\"cp\":{},\"cp_path\":{},\"cp_gens\":{},\"bare_tuple\":{},\"hint\":{},\"err\":{},\"vars\":{},\"upd\":{},\"ret\":{},\"dflt\":{},\"repeat\":{},\"skip\":{},\"stop\":{},\"at\":{},\"iat\":{},\"nat\":{}}}",
+        appl(&t.applicable_to), t.fallible, js(&c.ty.path_str), js(&c.ty.path.to_string()), opt_s(c.ty.generics.as_ref().map(|g| g.to_token_stream().to_string())), c.ty.nameless_tuple, hint(c.type_hint),
+        opt_s(c.err_ty.as_ref().map(|e| e.path_str.clone())), vars, opt_toks(&c.update), opt_toks(&c.quick_return), opt_toks(&c.default_case),
+        c.repeat.map(|r| arr(r.iter().map(|b| b.to_string()).collect())).unwrap_or_else(|| js("-")), c.skip_repeat, c.stop_repeat,
+        opt_toks(&c.attribute), opt_toks(&c.impl_attribute), opt_toks(&c.inner_attribute))
+}
+fn ghost_data(g: &GhostData) -> String {
+    let path = g.child_path.as_ref().map(|p| arr(p.child_path.iter().map(|m| js(&m.to_token_stream().to_string())).collect())).unwrap_or_else(|| "[]".into());
+    let (form, ident) = match &g.ghost_ident { GhostIdent::Member(m) => ("member", m.to_token_stream().to_string()), GhostIdent::Destruction(d) => ("destruct", d.to_string()) };
+    format!("{{\"path\":{},\"form\":{},\"ident\":{},\"e\":{}}}", path, js(form), js(&ident), toks(&g.action))
+}
+fn ghosts_attr(g: &GhostsAttr) -> String {
+    format!("{{\"kinds\":{},\"cp\":{},\"entries\":{}}}", appl(&g.applicable_to), cp(&g.attr.container_ty), arr(g.attr.ghost_data.iter().map(ghost_data).collect()))
+}
+fn child_attr(c: &ChildAttr) -> String {
+    format!("{{\"cp\":{},\"path\":{}}}", cp(&c.container_ty), arr(c.child_path.child_path.iter().map(|m| js(&m.to_token_stream().to_string())).collect()))
+}
+fn parent_attr(p: &ParentAttr) -> String {
+    let fields = p.child_fields.as_ref().map(|fs| arr(fs.iter().map(|f| {
+        let sub = arr(f.sub_path.iter().map(|(m, t)| format!("{{\"m\":{},\"ty\":{}}}", js(&m.to_token_stream().to_string()), opt_s(t.as_ref().map(|x| x.to_token_stream().to_string())))).collect());
+        let attrs = arr(f.attrs.iter().map(|a| format!("{{\"kinds\":{},\"m\":{},\"e\":{}}}", appl(&a.applicable_to), opt_s(a.that_member.as_ref().map(|m| m.to_token_stream().to_string())), opt_toks(&a.action))).collect());
+        format!("{{\"this\":{},\"sub\":{},\"attrs\":{}}}", js(&f.this_member.to_token_stream().to_string()), sub, attrs)
+    }).collect())).unwrap_or_else(|| js("-"));
+    format!("{{\"cp\":{},\"fields\":{}}}", cp(&p.container_ty), fields)
+}
+fn member_attrs(a: &MemberAttrs) -> String {
+    // MemberAttr::applicable_to is private: recover it through the crate-public filter
+    let maps = arr(a.attrs.iter().map(|m| {
+        let kinds = arr(KINDS.iter().filter(|(k, _)| a.iter_for_kind(k, m.fallible).any(|x| std::ptr::eq(x, m))).map(|(_, n)| js(n)).collect());
+        format!("{{\"kinds\":{},\"fallible\":{},\"cp\":{},\"m\":{},\"e\":{},\"orig\":{}}}", kinds, m.fallible, cp(&m.attr.container_ty),
+            opt_s(m.attr.member.as_ref().map(|x| x.to_token_stream().to_string())), opt_toks(&m.attr.action), js(&m.original_instr))
+    }).collect());
+    let ghost = arr(a.ghost_attrs.iter().map(|g| format!("{{\"kinds\":{},\"cp\":{},\"e\":{}}}", appl(&g.applicable_to), cp(&g.attr.container_ty), opt_toks(&g.attr.action))).collect());
+    let lit = arr(a.lit_attrs.iter().map(|l| format!("{{\"cp\":{},\"t\":{}}}", cp(&l.container_ty), toks(&l.tokens))).collect());
+    let pat = arr(a.pat_attrs.iter().map(|l| format!("{{\"cp\":{},\"t\":{}}}", cp(&l.container_ty), toks(&l.tokens))).collect());
+    let th = arr(a.type_hint_attrs.iter().map(|l| format!("{{\"cp\":{},\"hint\":{}}}", cp(&l.container_ty), hint(l.type_hint))).collect());
+    let rep = a.repeat.as_ref().map(|r| format!("{{\"permeate\":{},\"cats\":{}}}", r.permeate, arr(r.repeat_for.iter().map(|b| b.to_string()).collect()))).unwrap_or_else(|| js("-"));
+    format!("\"map\":{},\"child\":{},\"parent\":{},\"ghost\":{},\"ghosts\":{},\"lit\":{},\"pat\":{},\"hint\":{},\"repeat\":{},\"skip\":{},\"stop\":{},\"error_instrs\":{}",
+        maps, arr(a.child_attrs.iter().map(child_attr).collect()), arr(a.parent_attrs.iter().map(parent_attr).collect()), ghost,
+        arr(a.ghosts_attrs.iter().map(ghosts_attr).collect()), lit, pat, th, rep, a.skip_repeat, a.stop_repeat, a.error_instrs.len())
+}
+fn field(f: &Field) -> String {
+    format!("{{\"name\":{},\"idx\":{},\"ty\":{},{}}}", js(&f.member_str), f.idx, opt_s(f.ty.as_ref().map(|t| t.to_token_stream().to_string())), member_attrs(&f.attrs))
+}
+fn variant(v: &Variant) -> String {
+    format!("{{\"name\":{},\"shape\":{},\"fields\":{},{}}}", js(&v.ident.to_string()), js(if v.unit { "unit" } else if v.named_fields { "named" } else { "tuple" }),
+        arr(v.fields.iter().map(field).collect()), member_attrs(&v.attrs))
+}
+fn type_attrs(a: &DataTypeAttrs) -> String {
+    let wh = arr(a.where_attrs.iter().map(|w| format!("{{\"cp\":{},\"preds\":{}}}", cp(&w.container_ty), arr(w.where_clause.iter().map(|p| js(&p.to_token_stream().to_string())).collect()))).collect());
+    let chp = arr(a.child_parents_attrs.iter().map(|c| format!("{{\"cp\":{},\"entries\":{}}}", cp(&c.container_ty), arr(c.child_parents.iter().map(|d|
+        format!("{{\"path\":{},\"ty\":{},\"hint\":{}}}", arr(d.field_path.iter().map(|m| js(&m.to_token_stream().to_string())).collect()), js(&d.ty.to_token_stream().to_string()), hint(d.type_hint))).collect()))).collect());
+    format!("\"traits\":{},\"ghosts\":{},\"wheres\":{},\"child_parents\":{},\"error_instrs\":{}",
+        arr(a.attrs.iter().map(trait_attr).collect()), arr(a.ghosts_attrs.iter().map(ghosts_attr).collect()), wh, chp, a.error_instrs.len())
+}
+fn struct_shape(s: &Struct) -> &'static str { if s.unit { "unit" } else if s.named_fields { "named" } else { "tuple" } }
+
+/// Raw instruction name as written (before classification).
+pub(crate) fn on_instr(level: &str, name: &str, own: bool) {
+    push(format!("{{\"ev\":\"instr\",\"level\":{},\"name\":{},\"own\":{}}}", js(level), js(name), own));
+}
+/// Start of a member's attribute list.
+pub(crate) fn on_member(m: &SynDataTypeMember) {
+    let (k, n) = match m {
+        SynDataTypeMember::Field(f) => ("field", f.ident.as_ref().map(|i| i.to_string()).unwrap_or_default()),
+        SynDataTypeMember::Variant(v) => ("variant", v.ident.to_string()),
+    };
+    push(format!("{{\"ev\":\"member\",\"kind\":{},\"name\":{}}}", js(k), js(&n)));
+}
+/// The parsed-and-merged abstract state, before validation.
+pub(crate) fn on_parsed(input: &DataType) {
+    let s = match input {
+        DataType::Struct(s) => format!("{{\"ev\":\"parsed\",\"dt\":\"struct\",\"name\":{},\"shape\":{},\"gens\":{},{},\"members\":{}}}",
+            js(&s.ident.to_string()), js(struct_shape(s)), js(&s.generics.to_token_stream().to_string()), type_attrs(&s.attrs), arr(s.fields.iter().map(field).collect())),
+        DataType::Enum(e) => format!("{{\"ev\":\"parsed\",\"dt\":\"enum\",\"name\":{},\"shape\":\"enum\",\"gens\":{},{},\"members\":{}}}",
+            js(&e.ident.to_string()), js(&e.generics.to_token_stream().to_string()), type_attrs(&e.attrs), arr(e.variants.iter().map(variant).collect())),
+    };
+    push(s);
+}
+
+/// One impl is about to be rendered (linearisation point of the spec's EmitImpl action).
+pub(crate) fn on_impl(kind: &Kind, fallible: bool, cp: &str, post_init: bool) {
+    let k = KINDS.iter().find(|(k, _)| k == kind).map(|(_, n)| *n).unwrap_or("?");
+    push(format!("{{\"ev\":\"impl\",\"kind\":{},\"fallible\":{},\"cp\":{},\"post_init\":{}}}", js(k), fallible, js(cp), post_init));
+}
